@@ -147,6 +147,9 @@ STAGES = {
           ("SelectMany", "{v}.Jets().Select(lambda j: (j, {v}.met()))", "TJF"),
           ("Select", "{v}.Jets().Select(lambda j: j.Tracks().Where(lambda t: t.pt() > 0).Count())", "Is"),
           ("Select", "len({v}.Jets())", "I"),
+          # and / or in value position on non-boolean operands (Python returns an operand)
+          ("Select", "{v}.Jets().Count() and True", "U"), ("Select", "{v}.met() or 5.0", "F"),
+          ("Select", "({v}.Jets().Count() and {v}.met()) + 1", "F"),
           ("Select", "ratio({v}.met(), b={v}.Jets().Count())", "F"),
           ("Select", "(lambda m: m * m + OFFSET)({v}.met())", "F"),
           ("Select", "Info(n={v}.Jets().Count(), m={v}.met())", "D"),
@@ -224,6 +227,7 @@ class RandBody:
             opts += [lambda n=n: f"{n}.pt()"] * 2
         if d > 0:
             opts += [lambda: self._bin(scope, d - 1), lambda: self._cond(scope, d - 1),
+                     lambda: self._valbool(scope, d - 1),
                      lambda: self._proj(scope, d - 1), lambda: self._called(scope, d - 1),
                      lambda: self._of_first(scope, d - 1)]
             if self.captures:
@@ -235,6 +239,13 @@ class RandBody:
     def _bin(self, scope, d):
         a, b = self.flt(scope, d), self.flt(scope, d)
         return None if None in (a, b) else f"({a} {self.rng.choice(['+', '-', '*'])} {b})"
+
+    def _valbool(self, scope, d):
+        a, b = self.flt(scope, d), self.flt(scope, d)
+        if None in (a, b):
+            return None
+        return self.rng.choice([f"({a} and {b})", f"({a} or {b})", f"(({a} and True) + 0.0)",
+                                f"({a} or 1.0)"])
 
     def _cond(self, scope, d):
         a, b, c = self.flt(scope, d), self.boo(scope, d), self.flt(scope, d)
